@@ -153,7 +153,11 @@ func doWorker(c *vfw.Check, tier string, seed uint64, k, n, secs, maxRuns int, o
 		n = 1
 	}
 	process := func(tape *seamrt.Tape, idx int, j int) bool {
-		r := vfw.Execute(c, tier, seed, idx, tape, false, scratch)
+		traceDir := os.Getenv("VERIF_TRACEDIR") // debugging aid: dump every run's history
+		r := vfw.Execute(c, tier, seed, idx, tape, traceDir != "", scratch)
+		if traceDir != "" && r.W != nil {
+			os.WriteFile(filepath.Join(traceDir, fmt.Sprintf("trace-%d.txt", idx)), []byte(strings.Join(r.W.Trace, "\n")+"\n"), 0644)
+		}
 		res.Runs++
 		res.Cases += r.NCases
 		res.Choices += len(tape.Rec)
